@@ -1965,6 +1965,12 @@ def enrich(draw, api):
                           ('nullable', ref), ('list', ('nullable', ref), None, None),
                           ('list', ('list', ('list', M.prim('Int64'), None, None), None, None), None, None),
                           ('map', s, ('nullable', ref)), ('nullable', ('map', s, ('map', s, ref)))]
+                if d['k'] == 'struct':
+                    # nested lists of non-numeric primitives take their own path through the --objc wrappers
+                    ts = M.prim('Timestamp', format='%Y-%m-%dT%H:%M:%SZ')
+                    for leaf in (s, M.prim('Bytes'), ts, M.prim('Boolean'), M.prim('Float64')):
+                        ll = ('list', ('list', leaf, None, None), None, None)
+                        shapes += [ll, ('nullable', ll), ('list', ll, None, None), ('map', s, ll)]
                 t = draw(st.sampled_from(shapes))
                 k += 1
                 name = 'extra_member_%d' % k
